@@ -189,7 +189,9 @@ CLAIMED = {
             "without `catch`, `[]` and native filters rest on the correspondence.", "7.1",
             "Coq model + table/stream correspondence on generated programs (proof partial)"),
     "C08": ("Theorems: float_cmp is a total preorder with trichotomy on NaN-free floats; integer order/equality exact for every "
-            "representation. Correspondence: all pairs of a 90-atom pool (every number representation and boundary) and random trees "
+            "representation; bsearch (the standard library's binary search, modelled in Std/Natives.v and compared on sorted arrays with runs of equal "
+            "elements) on an array sorted by a total preorder of values: a non-negative result points at an equal element, there is one whenever the "
+            "value occurs, a negative result names the insertion point (Proofs/BsearchLaws.v). Correspondence: all pairs of a 90-atom pool (every number representation and boundary) and random trees "
             "through comparison, object lookup/merge/equality, array subtraction, sort/unique/group_by/index; oracle: order axioms and "
             "key interchangeability on the implementation. The order of nested values (Proofs/ValOrder.v): whenever the order of numbers "
             "is a total preorder on a class of numbers, val_cmp is a total preorder (reflexive, antisymmetric, transitive, trichotomous) "
